@@ -11,7 +11,8 @@
 // mode "bursts": bursts of requests during which one rule (limit, burst) stays in force
 // while the harness perturbs everything else - the suffrage state hash, rule sets replaced
 // by equal ones, the type of the picked rule flipping between rule sets that hold the same
-// rule, traffic of other limiter instances - in the trace format of spec/RateLimitTrace.tla.
+// rule, the consensus nodes under an unchanged state hash, traffic of other limiter
+// instances - in the trace format of spec/RateLimitTrace.tla.
 package c36
 
 import (
@@ -113,6 +114,9 @@ type result struct {
 	Calls int    `json:"calls"`
 }
 
+// members and hash are what the harness' IsInConsensusNodesFunc answers: exists(node) and the hash of the suffrage
+// state. They are set independently of each other (in production the hash covers the suffrage state only, exists
+// also the candidates).
 type world struct {
 	rules   *launch.RateLimiterRules
 	handler *launch.RateLimitHandler
@@ -319,7 +323,9 @@ func (w *world) play(hist []action, res *result) error {
 			} else if err := w.rules.SetDefaultRuleMap(m.real()); err != nil {
 				return err
 			}
-		case "SetMembers":
+		case "SetMembers", "SetStateHash", "SetCandidates":
+			// what IsInConsensusNodesFunc answers from now on: exists(node) and the suffrage state hash are two
+			// independent values (SetMembers: both change; SetStateHash: the hash only; SetCandidates: exists only)
 			w.setMembers(a.Members, a.Hash)
 		case "AddNode":
 			added := w.handler.AddNode(addrs[a.Addr], node(a.Node))
@@ -546,6 +552,13 @@ func oneBurst(rng *rand.Rand, rule launch.RateLimiterRule, d time.Duration, wher
 			switch perturb {
 			case "hash": // a new suffrage state, the consensus nodes stay
 				w.hash++
+			case "membership": // the node leaves / joins the consensus nodes, the suffrage state (hash) stays
+				flipOn = !flipOn
+				if flipOn {
+					b.setMembers([]string{"n1"}, b.hash)
+				} else {
+					b.setMembers(nil, b.hash)
+				}
 			case "equal-sets": // a rule set is replaced by an equal one
 				kinds := []string{"defaultmap", where}
 				if where == "suffrage" {
@@ -602,7 +615,7 @@ func bursts(n int, out *h.Out) error {
 		{2, 3 * time.Millisecond}, {40, 20 * time.Millisecond}, {7, 70 * time.Millisecond}, {33, 3 * time.Second}}
 	// (rule set, perturbation): the first ones are run by the quick tier
 	combos := [][2]string{{"defaultmap", "none"}, {"suffrage", "hash"}, {"clientid", "equal-sets"}, {"net", "type-flip"},
-		{"node", "equal-sets"}, {"suffrage", "type-flip"}, {"clientid", "type-flip"}, {"net", "other-traffic"},
+		{"node", "equal-sets"}, {"suffrage", "membership"}, {"suffrage", "type-flip"}, {"clientid", "type-flip"}, {"net", "other-traffic"},
 		{"node", "type-flip"}, {"suffrage", "equal-sets"}, {"defaultmap", "type-flip"}, {"clientid", "none"},
 		{"suffrage", "other-traffic"}, {"net", "equal-sets"}, {"node", "hash"}, {"defaultmap", "equal-sets"},
 		{"net", "none"}, {"suffrage", "none"}, {"node", "none"}, {"clientid", "other-traffic"}, {"defaultmap", "other-traffic"},
